@@ -31,7 +31,7 @@ def tour(ctx, binary, cfgname, variant, lo, hi, budget, label, extra=None, pid="
     args = ["--variant", variant, "--lo", ",".join(map(str, lo)), "--hi", ",".join(map(str, hi)), "--lastonly"] + (extra or [])
     core.run_histories(binary, args, hp, tp, len(sel))
     ctx.cov.setdefault("tours", []).append({"config": cfgname, "transitions": len(hists), "replayed": len(sel)})
-    ctx.validate("RBTree", "RBTreeTrace", "RBTreeTrace.cfg", tp, label, keyfn=key_for(pid))
+    ctx.validate("RBTree", "RBTreeTrace", "RBTreeTrace.cfg", tp, label, keyfn=key_for(pid), env={"OWN": ctx.pid})
 
 
 def run(ctx):
@@ -61,4 +61,4 @@ def run(ctx):
                                     "--seed", str(ctx.seed + i), "--keyspace", str(max(6, nn // 3))], part + ".in", part, cnt)
         with open(tp, "a") as out:
             out.write(open(part).read())
-    ctx.validate("RBTree", "RBTreeTrace", "RBTreeTrace.cfg", tp, "rb random", keyfn=key_for("C06"))
+    ctx.validate("RBTree", "RBTreeTrace", "RBTreeTrace.cfg", tp, "rb random", keyfn=key_for("C06"), env={"OWN": ctx.pid})
